@@ -60,6 +60,12 @@ def gen_history(rng, maxlen):
         p = rng.choice(roots) + '/' + '/'.join(['\u6f22' * 80] * rng.choice([6, 7])) + '/report.txt'
         nodes.append(['f', p, 'content of a file with a long path'])
         files += [p] * 4
+    # $topdir/.Trash-$uid as a symbolic link to a directory of the same volume (the trash kept where there is room): trash-put uses it,
+    # so everybody else reads it
+    for v in lay.all_vols:
+        if lay.top[v][1] == 'absent' and rng.random() < 0.3:
+            nodes += [['d', scen.Layout.j(v, '.t2real'), 0o700], ['l', lay.top2(v), scen.Layout.j(v, '.t2real')]]
+            lay.top[v][1] = 'dir'
     # entries already in the trash when the history starts: in EVERY usable directory (home, .Trash/$uid when secure, .Trash-$uid)
     initial = []
     k0 = 0
@@ -115,6 +121,12 @@ def gen_history(rng, maxlen):
         else:
             days = rng.choice([None, 0, 1, 2, 5])
             now = t + datetime.timedelta(seconds=1)
+            if days is not None and rng.random() < 0.35:
+                # exactly DAYS days, to the second, after one of the entries was trashed: that entry is DAYS days old, not older - it stays
+                known = [datetime.datetime.strptime(d, '%Y-%m-%d %H:%M:%S') for d, _ in initial if not d.startswith('2099')] + \
+                        [datetime.datetime(*st2['now'][:6]) for st2 in steps if st2['cmd'] == 'put' and st2.get('now')]
+                if known:
+                    now = rng.choice(known) + datetime.timedelta(days=days)
             st = {'cmd': 'empty', 'argv': ([str(days)] if days is not None else []) + ['-f'], 'env': {'TRASH_DATE': now.strftime(FMT)}}
             fresh = None
             if rng.random() < 0.3:
